@@ -109,6 +109,26 @@ def handle (st : St) (idx : Nat) (line : String) : St × String :=
     | "reflect" :: "rt" :: _ => (st, emit idx impl (judgeReflect implToks))
     | "conn" :: "lw" :: rest => (st, emit idx impl (judgeConnLW ((kv rest "ev").getD "") implToks))
     | "sctp" :: "canswer" :: rest => (st, emit idx impl (judgeCAnswer ((kv rest "streams").getD "") ((kvNat rest "rounds").getD 0) implToks))
+    | "conn" :: "tlscn" :: _ =>
+      -- a connection whose TLS handshake fails is gone: the reader loop has ended, so a channel
+      -- requested before or after is closed (C14_quiet / C14_late_request)
+      (st, emit idx impl { model := "cn=closed",
+                           fails := if implToks.headD "" = "cn=closed" then [] else ["C14:close-notify-did-not-fire"],
+                           tags := ["tlscn"] })
+    | "conn" :: "xtalk" :: rest =>
+      -- every connection is handed its own messages (C15_frame); every faulty one is closed
+      let k := (kvNat rest "k").getD 0
+      let f := (kvNat rest "f").getD 0
+      let rounds := (kvNat rest "rounds").getD 0
+      let model := " ".intercalate ((List.range k).map (fun i => s!"c{i}=ok")) ++ s!" | faults={f * rounds}/{f * rounds}"
+      let foreign := implToks.any (fun t => t.endsWith "=foreign")
+      let lost := implToks.any (fun t => t.endsWith "=lost")
+      let implOut := " ".intercalate implToks
+      (st, emit idx impl { model := model,
+                           fails := (if foreign then ["C15:handler-given-bytes-of-another-connection"] else []) ++
+                                    (if lost then ["C15:message-on-healthy-connection-lost-after-faults-elsewhere"] else []) ++
+                                    (if ¬ foreign ∧ ¬ lost ∧ implOut ≠ model then ["C15:faulty-connection-not-closed"] else []),
+                           tags := [s!"xtalk k={k} f={f} rounds={rounds}"] })
     | "smclient" :: "cea" :: _ => (st, emit idx impl (judgeCEA dict implToks))
     | "smclient" :: "dial" :: rest =>
       (st, emit idx impl (judgeDial dict ((kvNat rest "r").getD 0) ((kvNat rest "cfg").getD 0) ((kvNat rest "wf").getD 0)
